@@ -676,6 +676,12 @@ class PowerExpression(BinaryExpression):
         return self.make_ml_tag("msup", "{}{}".format(left_ml, right_ml), self.classes)
 
     def operate(self, one: NumberType, two: NumberType) -> NumberType:
+        # Integer powers are exact. np.power wraps silently at 64 bits and refuses
+        # negative integer exponents of integers.
+        if isinstance(one, (int, np.integer)) and isinstance(two, (int, np.integer)):
+            if two >= 0:
+                return int(one) ** int(two)
+            one = float(one)
         return np.power(one, two)
 
     def __str__(self) -> str:
